@@ -126,10 +126,16 @@ def gen_namespace(rng, nsname, thorough, deps, want_blocks=True, main=True, gobj
                 mt = ['ptr', ['func', ['void'], [['self', ['ptr', ['struct', tag]]], ['x', rand_basic()]]]]
             else:
                 mt = GPOINTER
+            if mk >= 0.9 and rng.random() < 0.5:
+                # an anonymous nested struct or union member
+                mt = [rng.choice(['anon_struct', 'anon_union']),
+                      [{'name': 'in_a', 'type': rand_basic()}, {'name': 'in_b', 'type': GPOINTER}]]
             m = {'name': 'f%d_%s' % (i, snake(r)), 'type': mt, 'private': rng.random() < 0.15}
             if mt[0] in ('basic', 'named') and mt[1] in ('guint', 'unsigned int') and rng.random() < 0.3:
                 m['bits'] = rng.randint(1, 7)
             members.append(m)
+        if style == 'split' and rng.random() < 0.1:
+            members = []                       # struct _T { }; -- an empty body
         if style in ('split', 'union'):
             D({'k': 'typedef_struct_fwd', 'name': P + r, 'tag': tag, 'union': is_union}, f_typedefs)
             if rng.random() < 0.25:
@@ -143,6 +149,8 @@ def gen_namespace(rng, nsname, thorough, deps, want_blocks=True, main=True, gobj
             D({'k': 'typedef_struct', 'name': P + r, 'tag': None, 'members': members}, f_typedefs, len(members) + 1)
         else:
             D({'k': 'typedef_struct', 'name': P + r, 'tag': tag, 'members': members}, f_typedefs, len(members) + 1)
+            if rng.random() < 0.25:
+                D({'k': 'typedef_struct_fwd', 'name': P + r + 'Twin', 'tag': tag}, f_typedefs)
         rec_ann = ''
         if style == 'opaque' and rng.random() < 0.4:
             rec_ann = ' (foreign)'
